@@ -516,4 +516,6 @@ def run(ctx, progs):
         r6_zst_sibling_agreement(ctx, P)
         r7_drain_keep_rest(ctx, P)
         stale.rule(ctx, P, "C08.R5", ("bump_vec::BumpVec<", "mut_bump_vec::MutBumpVec<", "mut_bump_vec_rev::MutBumpVecRev<"), 20, 25)
+        from . import c06
+        c06.r1_len_before_drop(ctx, P, R="C08.R8")
     ctx.config = None
